@@ -1500,3 +1500,22 @@ B("C03", "kernel-counts-empties-correct-closed-form", DIS, _PAIR_OLD,
   _PAIR_COUNT % "(nb_empty * (nb_annotators - nb_empty) + nb_empty * (nb_empty - 1) / 2) * delta_empty")
 M("C03", "kernel-counts-empties-drops-empty-empty-pairs", DIS, _PAIR_OLD,
   _PAIR_COUNT % "nb_empty * (nb_annotators - nb_empty) * delta_empty", "R-C03-1")
+
+# rules added after seeded changes C02 / C18
+M("C18", "reader-skipinitialspace", CONT,
+  "            reader = csv.reader(csv_file, delimiter=delimiter)", "            reader = csv.reader(csv_file, delimiter=delimiter, skipinitialspace=True)", "R-C18-1")
+M("C18", "writer-other-quotechar", CONT,
+  "            writer = csv.writer(csv_file, delimiter=delimiter)", "            writer = csv.writer(csv_file, delimiter=delimiter, quotechar=\"'\")", "R-C18-1")
+B("C18", "same-quoting-both-sides", CONT,
+  "            reader = csv.reader(csv_file, delimiter=delimiter)", "            reader = csv.reader(csv_file, delimiter=delimiter, doublequote=True)") if False else None
+for prop, rule in (("C02", "R-C02-2"), ("C07", "R-C07-3")):
+    M(prop, "extra-pruning-conjunct", DIS, "            if disorder <= criterium:",
+      "            if disorder <= criterium and disorder <= (nb_annotators + 1) * delta_empty * c2n / 2:", rule,
+      "a second, tighter cut next to the paper's: harmless for 3 annotators, loses optimal candidates for 4+")
+B("C07", "cost-through-local", DIS,
+  """                    disorder += precomputation[annot_a][annot_b][unitary_alignment[annot_a],
+                                                                 unitary_alignment[annot_b]]""",
+  """                    pair_cost = precomputation[annot_a][annot_b][unitary_alignment[annot_a],
+                                                                  unitary_alignment[annot_b]]
+                    disorder += pair_cost""")
+VARIANTS[:] = [v for v in VARIANTS if v is not None]
